@@ -22,6 +22,8 @@ TOOL_ID = 3
 FAMILIES = ["truncate", "headflip", "replace", "inflate", "nesting", "growth", "random"]
 
 
+STEPS_PER_BYTE_FLOOR = 2000  # line events per input byte that are still "proportional"; ~5x the densest legitimate input seen
+
 class StepCounter:
     """Deterministic step counter: interpreter LINE events (sys.monitoring)."""
 
@@ -299,7 +301,12 @@ class Corrupt(Machine):
                         continue
                     distinct.add(hash(bad))
                     scale = max(1.0, len(bad) / max(1, len0))
-                    step_limit = int(50 * steps0 * scale) + 50000
+                    # "proportional to the input size": 50x what a valid envelope costs per byte - but a valid envelope
+                    # is mostly cheap payload bytes (5-40 line events per byte), while an input made of one-byte items
+                    # legitimately costs a few hundred per byte (389 is the densest seen), so the bound is never below
+                    # STEPS_PER_BYTE_FLOOR per byte.  Super-linear growth below this bound is the business of the
+                    # scaling and CPU-time growth oracles.
+                    step_limit = max(int(50 * steps0 * scale), STEPS_PER_BYTE_FLOOR * len(bad)) + 50000
                     mem_limit = int(50 * peak0 * scale) + (8 << 20)
                     rss0 = resource.getrusage(resource.RUSAGE_SELF).ru_maxrss
                     tracemalloc.reset_peak()
